@@ -19,6 +19,7 @@ M = "apischema.deserialization.methods"
 class OptionalDeserialize:
     coercers = ["self.coercer"]
     raises = ["ValidationError"]
+    exports = ["C13: returns iff the datum is null or the value alternative accepts it (or, under coercion, it coerces to null)", "C13: image is null, or the value alternative's image"]
 
     def requires(self, c):
         return [isinst(c.self, "OptionalMethod")]
@@ -58,6 +59,7 @@ class OptionalDeserialize:
 class UnionDeserialize:
     kinds = {"self.alt_methods": "tuple"}
     raises = ["ValidationError"]
+    exports = ["C13: accepts iff some alternative accepts", "C13: image is the image of the first accepting alternative"]
 
     def requires(self, c):
         ms = c.attr0(c.self, "alt_methods")
@@ -101,6 +103,7 @@ class UnionDeserialize:
 class UnionByTypeDeserialize:
     kinds = {"self.method_by_cls": "dict"}
     raises = ["ValidationError"]
+    exports = ["C13: the by-type shortcut accepts iff some alternative accepts (try-each-alternative semantics)", "C13: image is the image of an accepting alternative"]
 
     def requires(self, c):
         mbc = c.attr0(c.self, "method_by_cls")
@@ -169,6 +172,7 @@ class RecDeserialize:
 @contract(f"{M}:TypeCheckMethod.deserialize", props=["C01", "C03", "C08"])
 class TypeCheckDeserialize:
     raises = ["ValidationError"]
+    exports = ["C08: an instance of the passed-through class is accepted as is, anything else goes to the fallback", "image"]
 
     def requires(self, c):
         return [isinst(c.self, "TypeCheckMethod")]
